@@ -2,7 +2,7 @@ CONSTANTS
  Mods = {"MAIN","A","B"}
  Rules = {"ra","rb","xa"}
  ImpPats = {"*","r*"}
- ExpKinds = {"all","none","r*"}
+ ExpKinds = {"all","none","r*","t:*|r:r*","f:*a|a:ra|r:xa"}
  ReKinds = {"none","*a"}
  Types = {"rules","templates"}
  MaxOps = 3
